@@ -214,6 +214,85 @@ def r5(ctx: RuleCtx) -> None:
                 ctx.require(cfg.dominated_by_any(a, sv), f'{fq}: the project range is saved before it is narrowed', mod, fq, site,
                             f'`{short(site)}` narrows project_meson_versions[..] on a path that has not saved the previous range', site)
                 leaks = [s for s in sinks if cfg.can_reach(a, s, avoid=rs)]
+                # a generator used as a context manager: the exception of the with-body is thrown in at `yield`
+                region = cfg.reachable([a], avoid=rs)
+                restores = restore.get(id(f), [])
+
+                def covered(y: ast.AST) -> bool:
+                    for t in ast.walk(f):
+                        if isinstance(t, ast.Try) and any(y is n for b in t.body for n in ast.walk(b)):
+                            if any(r_ is n for r_ in restores for b in t.finalbody for n in ast.walk(b)):
+                                return True
+                            for h in t.handlers:
+                                if (h.type is None or norm(h.type) == 'BaseException') and any(r_ is n for r_ in restores for b in h.body for n in ast.walk(b)):
+                                    return True
+                    return False
+                for n in cfg.nodes:
+                    if n.id in region and n.ast is not None and n.kind == 'stmt' and any(isinstance(y, (ast.Yield, ast.YieldFrom)) for y in ast.walk(n.ast)) \
+                            and not covered(n.ast):
+                        leaks.append(cfg.exit_raise)
                 ctx.require(not leaks, f'{fq}: the saved range is stored back on every way out of the branch', mod, fq, site,
                             f'after `{short(site)}` there is a path to {["the next read of the table" if s in sv else s.kind for s in leaks]} that does not '
                             f'store the saved project range back (the narrowed meson_version range would leak into the following code)', site)
+
+
+# ---------------------------------------------------------------------------------------------------------
+# C19.R6 — call sites of version_compare_many: the result is a 3-tuple (verdict, failed, satisfied); a non-empty
+# tuple is always true, so using the whole result where a truth value is wanted makes every constraint list "hold"
+# (K8 call-site agreement, decided for every call site in mesonbuild/).
+# ---------------------------------------------------------------------------------------------------------
+
+def _truth_context(parents: T.Dict[int, ast.AST], n: ast.AST) -> T.Optional[str]:
+    """The construct that takes the truth value of expression `n` directly, if any."""
+    par = parents.get(id(n))
+    if isinstance(par, (ast.If, ast.While, ast.IfExp, ast.Assert)) and par.test is n:
+        return par.__class__.__name__.lower() + ' test'
+    if isinstance(par, ast.comprehension) and any(n is c for c in par.ifs):
+        return 'comprehension filter'
+    if isinstance(par, ast.UnaryOp) and isinstance(par.op, ast.Not):
+        return '`not`'
+    if isinstance(par, ast.BoolOp):
+        return '`and`/`or` operand' if _truth_context(parents, par) is not None or par.values[-1] is not n else None
+    if isinstance(par, ast.Call) and isinstance(par.func, ast.Name) and par.func.id == 'bool' and par.args == [n]:
+        return 'bool()'
+    return None
+
+
+def r6(ctx: RuleCtx) -> None:
+    # built-in positive example
+    ex = ast.parse('if version_compare_many(v, reqs):\n    pass\n')
+    pm: T.Dict[int, ast.AST] = {}
+    for x in ast.walk(ex):
+        for ch in ast.iter_child_nodes(x):
+            pm[id(ch)] = x
+    assert _truth_context(pm, ex.body[0].test) == 'if test', 'truth-context self-test'      # type: ignore[attr-defined]
+    sites = 0
+    for rel in ctx.repo.py_files('mesonbuild'):
+        if 'version_compare_many' not in ctx.repo.read(rel):
+            continue
+        mod = ctx.repo.module(rel)
+        parents: T.Dict[int, ast.AST] = {}
+        for x in ast.walk(mod.tree):
+            for ch in ast.iter_child_nodes(x):
+                parents[id(ch)] = x
+        for c in ast.walk(mod.tree):
+            if not (isinstance(c, ast.Call) and ((isinstance(c.func, ast.Name) and c.func.id == 'version_compare_many')
+                                                 or (isinstance(c.func, ast.Attribute) and c.func.attr == 'version_compare_many'))):
+                continue
+            sites += 1
+            q = mod.enclosing_func(c) or '<module>'
+            how = _truth_context(parents, c)
+            subject: ast.AST = c
+            if how is None:
+                # `res = version_compare_many(..)` ... `if res:`: follow a plain local within the function
+                par = parents.get(id(c))
+                if isinstance(par, ast.Assign) and len(par.targets) == 1 and isinstance(par.targets[0], ast.Name) and par.value is c and mod.has_func(q):
+                    name = par.targets[0].id
+                    for u in ast.walk(mod.func(q)):
+                        if isinstance(u, ast.Name) and u.id == name and isinstance(u.ctx, ast.Load) and _truth_context(parents, u) is not None:
+                            how, subject = _truth_context(parents, u), u
+                            break
+            ctx.require(how is None, f'{rel}:{q}: the verdict of version_compare_many is taken from the tuple, not the tuple itself', mod, q, 'version_compare_many result used as a truth value',
+                        f'`{short(parents.get(id(subject), subject), 90)}`: the 3-tuple returned by version_compare_many is used as a truth value ({how}); a non-empty tuple is always '
+                        f'true, so the constraint list "holds" whatever the version - index the verdict with [0]', c)
+    ctx.floor('call sites of version_compare_many', sites, 1)
